@@ -9,7 +9,8 @@
 (*    ACCEPT call (kill only), while the launched tasks are still staging  *)
 (*    (before / after the roster is written), while the CONFIGURE or START *)
 (*    command is on its way, while the KILL calls of a teardown or of a    *)
-(*    reconciliation are on their way.                                      *)
+(*    reconciliation are on their way (kill), while the answer to a         *)
+(*    RECONCILE call is on its way (drop: the answer is lost).              *)
 (* Each action is wrapped in G_<Action> so that TLC labels the steps.      *)
 (***************************************************************************)
 EXTENDS Restart
@@ -50,9 +51,12 @@ G_RefreshOnReconcile(t) == RefreshOnReconcile(t) /\ Tk
 G_NewEnv(e) == DriverFree /\ NewEnv(e) /\ Tk
 G_Launch(e, S) == Launch(e, S) /\ Tk
 G_Lock(e) == Lock(e) /\ Tk
-G_RosterAppend(e) == RosterAppend(e) /\ Tk
-\* the agent's report is held back until the roster is written (or the core is gone)
-G_TaskRunning(t) == (~up \/ t \in roster) /\ TaskRunning(t) /\ Tk
+\* (a deployment parked by the driver, like a report held back by it, is let go only once recovery has settled)
+Settled == rq = {} /\ rcv = {}
+G_RosterAppend(e) == (conn # "up" \/ Settled) /\ RosterAppend(e) /\ Tk
+\* the agent's report is held back until the roster is written and the event stream can carry it (a report
+\* sent while the stream is down is lost; Restart does not model what the core has learned), or the core is gone
+G_TaskRunning(t) == (~up \/ (t \in roster /\ conn = "up" /\ Settled)) /\ TaskRunning(t) /\ Tk
 G_ConfigureSend(e) == ConfigureSend(e) /\ Tk
 G_ConfigureDone(e) == Quiet /\ ConfigureDone(e) /\ Tk
 G_StartSend(e) == DriverFree /\ StartSend(e) /\ Tk
@@ -66,7 +70,11 @@ G_EnvError(e) == EnvError(e) /\ Tk
 G_Crash ==
   /\ tick >= fstart /\ up /\ conn = "up" /\ rq = {} /\ FaultEnvOK("crash") /\ (rcv = {} \/ NoneTransient) /\ Something
   /\ Crash /\ TkF
-G_DropConnection == tick >= fstart /\ Quiet /\ FaultEnvOK("drop") /\ Something /\ DropConnection /\ TkF
+\* drop: recovery settled, or while the whole answer to a RECONCILE call is still on its way (it is lost)
+AnswerPending == rq # {} /\ rq = {t \in Tasks : Alive(t) /\ mt[t].fw = cfid} /\ NoneTransient
+G_DropConnection ==
+  /\ tick >= fstart /\ up /\ conn = "up" /\ rcv = {} /\ (rq = {} \/ AnswerPending) /\ FaultEnvOK("drop") /\ Something
+  /\ DropConnection /\ TkF
 
 GenNext ==
   \/ G_CoreStart \/ G_Subscribe \/ G_Resubscribe \/ (\E id \in 1..(MaxCrash + 2) : G_Subscribed(id)) \/ G_StoreFid \/ G_Reconcile
